@@ -423,9 +423,15 @@ def decoys_of(cs):
             for b_ in range(n):
                 if a_ != b_ and t[a_][b_]:
                     fw[(a_, b_)] = list(sv)
+        # decoy C has as many exploit / escalation definitions as the scenario under test (same action-space size),
+        # naming its own OSs, services and processes
+        ne_ = max(1, len(cs["exploits"])) if tag == "C" else 1
+        np_ = max(1, len(cs["privescs"])) if tag == "C" else 1
+        exs = {"e_d%d" % i: E(sv[i % len(sv)], o[i % len(o)] if i % 2 else None, 1.0, 1 + i, R) for i in range(ne_)}
+        pes = {"pe_d%d" % i: P(pr[i % len(pr)], o[i % len(o)] if i % 2 == 0 else None, 1.0, 1 + i, R) for i in range(np_)}
         sp = dict(name=cs["name"], subnets=list(cs["subnets"][1:]), topology=t, os=list(o), services=list(sv),
                   processes=list(pr), hosts=hosts,
-                  exploits={"e_d": E(sv[0], None, 1.0, 1, R)}, privescs={"pe_d": P(pr[0], None, 1.0, 1, R)},
+                  exploits=exs, privescs=pes,
                   fw=fw, sens={order[0]: 1}, scan_costs=(1, 1, 1, 1), step_limit=None,
                   bounds=tuple(cs["bounds"]), extra=[])
         out.append(sp)
